@@ -66,4 +66,12 @@ PROPS = {
                      "'compatible' is the full structural predicate compat (every element typed, sets strictly ascending); it implies the C++ CheckCompatible (theorem compat_checkCompatible), which the harness also evaluates on every unpacked value"],
         partial=["unpack_pack_statement (round trip for EVERY compatible value) is false in the model: unpack_pack_partial proves it under the extra hypothesis noMarker v; unpack_pack_marker_counterexample refutes the unrestricted statement"],
     ),
+    "C13": dict(
+        lean_modules=["CCVerif.Properties.C13"],
+        harness=["c13_main.cpp"],
+        trusted_base=["the source schema is abstracted to (uid, resolved inputs, empty definition?, base set?) in list order, as reported by the implementation (Graph().InputsFor)",
+                      "the copy (InsertCopy bulk + ResetAliases) is not modelled here: closure, order and status/type preservation are judged on the implementation's result"],
+        assumptions=["'dependencies' are the resolved ones: a definition that mentions only unresolved names has none"],
+        partial=["maxPart_spec_statement", "basis_spec_statement"],
+    ),
 }
